@@ -7,7 +7,8 @@ Shared plumbing for the per-property harnesses (run with /venv/bin/python, PYTHO
   Result              accumulates coverage / disagreements / oracle failures, writes evidence, prints the verdict
   known findings      /verif/known_findings.json (never written at run time)
 """
-import os, sys, json, subprocess, time, re, hashlib, fcntl, traceback
+import os, sys, json, subprocess, time, re, hashlib, fcntl, traceback, warnings
+warnings.simplefilter("ignore")
 
 VERIF = os.path.abspath(os.path.join(os.path.dirname(__file__), '..'))
 LEAN = os.path.join(VERIF, 'lean')
